@@ -128,6 +128,13 @@ def coq_check_property(pid):
         # which theorem of the property file is affected: all of them if a dependency broke
         res["broken"] = [dict(where=where, theorems=theorems, error=out[-1500:])]
         return res
+    # re-run the property file alone so that only its own Print Assumptions output is counted
+    rc, out = sh(["coqc", "-R", COQ, "Saphyr", "-w", "-notation-overridden,-deprecated-hint-without-locality,-ambiguous-paths",
+                  vfile], cwd=COQ, timeout=1200)
+    res["output"] = out[-6000:]
+    if rc != 0:
+        res["broken"] = [dict(where="Properties/%s.v" % pid, theorems=theorems, error=out[-1500:])]
+        return res
     closed = out.count("Closed under the global context")
     axioms = re.findall(r"^Axioms:\s*\n((?:.+\n)+)", out, re.M)
     bad = []
